@@ -16,6 +16,8 @@ import Mathlib.Tactic.Ring
 import Mathlib.Tactic.Linarith
 import Mathlib.Tactic.Tauto
 import Mathlib.Tactic.Push
+import Mathlib.Tactic.CongrExclamation
+import Mathlib.Tactic.FieldSimp
 
 set_option linter.unusedSimpArgs false
 set_option linter.unusedSectionVars false
@@ -26,6 +28,31 @@ set_option linter.unreachableTactic false
 namespace SparkxVerif.SmearGen
 open SparkxVerif.Lattice (Err Lat Geom mkGeom pyGet ndindex flat unflat npAxis absG)
 
+
+/-- an equation between two values / lists / records that differ only by field arithmetic written in another way
+(a commuted product, `a / b * c` for `a * c / b`, …): descend one constructor at a time until `ring1` closes it -/
+macro "leaf_eq" : tactic => `(tactic| first
+  | rfl
+  | ring1
+  | (congr! 1 <;> first
+      | rfl
+      | ring1
+      | (congr! 1 <;> first
+          | rfl
+          | ring1
+          | (congr! 1 <;> first
+              | rfl
+              | ring1
+              | (congr! 1 <;> first
+                  | rfl
+                  | ring1
+                  | (congr! 1 <;> first | rfl | ring1))))))
+
+/-- closes what is left of an equation between states after the structural rewriting -/
+macro "leaf_arith" : tactic => `(tactic| (
+  all_goals (try (refine ⟨?_, ?_⟩))
+  all_goals (try (refine ⟨?_, ?_⟩))
+  all_goals leaf_eq))
 
 @[simp] theorem bind_ok {ε α β : Type} (a : α) (f : α → Except ε β) : (Except.ok a : Except ε α).bind f = f a := rfl
 @[simp] theorem bind_error {ε α β : Type} (e : ε) (f : α → Except ε β) : (Except.error e : Except ε α).bind f = .error e := rfl
@@ -860,7 +887,13 @@ theorem addParticleData_gen (Ls : Smear.Lattice K) (w : Ls.WF) (g : List K) (hg 
       ⟨-(((c : Nat) : K) * Ls.Z.spacing), ((c : Nat) : K) * Ls.Z.spacing, 2 * c + 1⟩⟩ : Smear.Lattice K) = tempL Ls a b c := rfl
   unfold Gen.Smear.addParticleData
   simp only [s1, s2, s3, n1, n2, n3, cv, hnan, hra, hrb, hrc, Bool.or_self, Bool.false_eq_true, if_false, ite_false,
-    (natOfInt_nat _).1, (natOfInt_nat _).2.1, (natOfInt_nat _).2.2.1, (natOfInt_nat _).2.2.2, bind_ok, ofInt_nat, initAttrs_gen, init_gen, hT, latOf_nx, latOf_ny, latOf_nz, tempL_Xn, tempL_Yn,
+    bind_ok]
+  -- `2 * num + 1` nodes per axis, however the code writes that number
+  have na : ∀ i : Int, i = ((2 * a + 1 : Nat) : Int) → Gen.Smear.natOfInt i = .ok (2 * a + 1) := fun i h => natOfInt_eq i _ h
+  have nb : ∀ i : Int, i = ((2 * b + 1 : Nat) : Int) → Gen.Smear.natOfInt i = .ok (2 * b + 1) := fun i h => natOfInt_eq i _ h
+  have nc : ∀ i : Int, i = ((2 * c + 1 : Nat) : Int) → Gen.Smear.natOfInt i = .ok (2 * c + 1) := fun i h => natOfInt_eq i _ h
+  simp (disch := (push_cast; ring1)) only [na, nb, nc]
+  simp only [bind_ok, ofInt_nat, initAttrs_gen, init_gen, hT, latOf_nx, latOf_ny, latOf_nz, tempL_Xn, tempL_Yn,
     tempL_Zn, ite_self]
   -- reset unless add
   have hstart : (if (!add) = true then (Gen.Smear.reset (latOf Ls g)).bind fun t => Except.ok t else Except.ok (latOf Ls g))
@@ -934,7 +967,7 @@ theorem addParticleData_gen (Ls : Smear.Lattice K) (w : Ls.WF) (g : List K) (hg 
           rw [show N - q = (N - (q + 1)) + 1 by omega, List.replicate_succ]
         rw [hrep, set_mid _ _ _ _ _ lA.symm]
         simp
-        all_goals first | ring1 | (refine ⟨?_, ?_⟩ <;> ring1) | (refine ⟨?_, ?_, ?_⟩ <;> ring1)
+        leaf_arith
     -- second loop: normalisation by the kernel sum when it is positive
     dsimp only
     simp only [latOf_nx, latOf_ny, latOf_nz, hTT, tempL_Xn, tempL_Yn, tempL_Zn]
@@ -974,12 +1007,12 @@ theorem addParticleData_gen (Ls : Smear.Lattice K) (w : Ls.WF) (g : List K) (hg 
           have lA' : ((G1.take q).map (fun x => x / norm)).length = q := by simp [List.length_take]; omega
           rw [List.drop_eq_getElem_cons hq', getD_mid _ _ _ _ lA'.symm, set_mid _ _ _ _ _ lA'.symm]
           simp
-          all_goals first | ring1 | (refine ⟨?_, ?_⟩ <;> ring1) | (refine ⟨?_, ?_, ?_⟩ <;> ring1)
+          leaf_arith
         · simp only [hpos, decide_false, Bool.false_eq_true, if_false]
           refine congrArg _ (congrArg _ ?_)
           rw [List.drop_eq_getElem_cons hq']
           simp
-          all_goals first | ring1 | (refine ⟨?_, ?_⟩ <;> ring1) | (refine ⟨?_, ?_, ?_⟩ <;> ring1)
+          leaf_arith
     -- closest node, its coordinates, and the deposit
     obtain ⟨bw, hfc⟩ := findClosestIndices_gen (latOf Ls G) pt.x pt.y pt.z
     have cX := w.X.closest_lt pt.x
